@@ -82,6 +82,8 @@ pub struct St {
     pub iff1: bool,
     pub iff2: bool,
     pub dbg: [bool; 4],
+    /// a stale diagnostic text is present before the step
+    pub stale: bool,
     pub sdur: u32,
     pub smax: u32,
     pub scur: u32,
@@ -105,6 +107,7 @@ impl Default for St {
             iff1: false,
             iff2: false,
             dbg: [false; 4],
+            stale: false,
             sdur: 16,
             smax: 35000,
             scur: 0,
@@ -173,6 +176,9 @@ impl St {
         let mut s = format!("S {} ", self.regctl_text());
         for b in self.dbg {
             s.push(if b { '1' } else { '0' });
+        }
+        if self.stale {
+            s.push('1');
         }
         write!(s, " {:08X} {:08X} {:08X} {:04X} ", self.sdur, self.smax, self.scur, self.top).unwrap();
         match self.rom {
@@ -470,7 +476,7 @@ impl Imp {
                 self.cpu.debug.opcode = s.dbg[1];
                 self.cpu.debug.io = s.dbg[2];
                 self.cpu.debug.instr_in = s.dbg[3];
-                self.cpu.debug.string = String::new();
+                self.cpu.debug.string = if s.stale { String::from("0xSTALE") } else { String::new() };
                 self.base = img;
                 "ok".into()
             }
@@ -500,7 +506,7 @@ impl Imp {
                 self.cpu.debug.opcode = s.dbg[1];
                 self.cpu.debug.io = s.dbg[2];
                 self.cpu.debug.instr_in = s.dbg[3];
-                self.cpu.debug.string = String::new();
+                self.cpu.debug.string = if s.stale { String::from("0xSTALE") } else { String::new() };
                 self.base = img;
                 "ok".into()
             }
